@@ -39,7 +39,40 @@ VARIANTS = [
       *replace_stmt("kernel_state.inverse_mass_matrix = new_inv_mm",
                     "kernel_state.inverse_mass_matrix = old_inv_mm"),
       note="tuned matrix dropped"),
+    V("c12_leaf_transposed", "M", M, "_history_to_matrix",
+      lambda nd: isinstance(nd, ast.Return),
+      lambda nd: stmt("return jnp.concatenate([x.T.reshape(-1, x.shape[0]) for x in "
+                      "jax.tree_util.tree_leaves(history)], axis=0).T"),
+      note="column-major element order inside matrix-valued leaves", expect_rule="C12.R1"),
+    V("c12_leaf_order_f", "M", M, "_history_to_matrix",
+      lambda nd: isinstance(nd, ast.Return),
+      lambda nd: stmt("return jnp.column_stack([x.reshape((x.shape[0], -1), order='F') for x "
+                      "in jax.tree_util.tree_leaves(history)])"),
+      note="Fortran-order reshape", expect_rule="C12.R1"),
+    V("c12_seq_history_rebound", "M", "liesel/goose/kernel_sequence.py", "KernelSequence.tune",
+      lambda nd: isinstance(nd, ast.Assign) and ast.unparse(nd.targets[0]) == "result",
+      lambda nd: stmt("result = kernel.tune(keys[i], kernel_states[i], model_state, phase, history)\n"
+                      "history = None"),
+      note="only the first kernel sees the history", expect_rule="C12.R3"),
+    V("c12_seq_history_dropped", "M", "liesel/goose/kernel_sequence.py", "KernelSequence.tune",
+      *replace_expr("kernel.tune(keys[i], kernel_states[i], model_state, phase, history)",
+                    "kernel.tune(keys[i], kernel_states[i], model_state, phase, None)"),
+      note="no kernel sees the history", expect_rule="C12.R3"),
     # ---- twins
+    V("c12_t_reshape_rowmajor", "T", M, "_history_to_matrix",
+      lambda nd: isinstance(nd, ast.Return),
+      lambda nd: stmt("return jnp.column_stack([x.reshape(x.shape[0], -1) "
+                      "for x in jax.tree_util.tree_leaves(history)])"),
+      note="row-major reshape per leaf"),
+    V("c12_t_moveaxis", "T", M, "_history_to_matrix",
+      lambda nd: isinstance(nd, ast.Return),
+      lambda nd: stmt("return jnp.concatenate([jnp.moveaxis(x, 0, -1).reshape(-1, x.shape[0]) "
+                      "for x in jax.tree_util.tree_leaves(history)], axis=0).T"),
+      note="time axis moved last, remaining axes keep their order"),
+    V("c12_t_seq_kwargs", "T", "liesel/goose/kernel_sequence.py", "KernelSequence.tune",
+      *replace_expr("kernel.tune(keys[i], kernel_states[i], model_state, phase, history)",
+                    "kernel.tune(keys[i], kernel_states[i], model_state, epoch=phase, history=history)"),
+      note="keyword arguments"),
     V("c12_t_sorted", "T", M, "_history_to_matrix",
       lambda nd: isinstance(nd, ast.Return),
       lambda nd: stmt("return jnp.column_stack([jax.vmap(jnp.ravel)(history[k]) "
